@@ -325,8 +325,10 @@ def _fold_ifexp(stmts, var):
     return out
 
 
-def _split_tuple_assign(st):
-    """a, b = (x, y)  ->  [a = x, b = y]  when the elements are pure and no target is read by an element; else None"""
+def _split_tuple_assign(st, names_may_be_impure=False):
+    """a, b = (x, y)  ->  [a = x, b = y]  when no target is read by an element and the elements are pure - or, with
+    names_may_be_impure, when every target is a plain local name (binding a local earlier cannot be observed by the
+    evaluation of a later element, which does not mention it); else None"""
     if not (isinstance(st, ast.Assign) and len(st.targets) == 1 and isinstance(st.targets[0], ast.Tuple)
             and isinstance(st.value, ast.Tuple) and len(st.value.elts) == len(st.targets[0].elts)
             and not any(isinstance(e_, ast.Starred) for e_ in st.targets[0].elts + st.value.elts)):
@@ -335,8 +337,12 @@ def _split_tuple_assign(st):
     for t_ in st.targets[0].elts:
         tn |= {n.id for n in ast.walk(t_) if isinstance(n, ast.Name)}
     vn = {n.id for e_ in st.value.elts for n in ast.walk(e_) if isinstance(n, ast.Name)}
-    if (tn & vn) or not all(is_pure(e_) for e_ in st.value.elts):
+    if tn & vn:
         return None
+    if not all(is_pure(e_) for e_ in st.value.elts):
+        if not (names_may_be_impure and all(isinstance(t_, ast.Name) for t_ in st.targets[0].elts)
+                and not any(isinstance(n, (ast.Lambda, ast.NamedExpr)) for e_ in st.value.elts for n in ast.walk(e_))):
+            return None
     return [ast.copy_location(ast.Assign(targets=[t_], value=e_, lineno=st.lineno), st) for t_, e_ in zip(st.targets[0].elts, st.value.elts)]
 
 
@@ -347,6 +353,9 @@ def _const_truth(e):
     if isinstance(e, ast.UnaryOp) and isinstance(e.op, ast.Not):
         v = _const_truth(e.operand)
         return None if v is None else (not v)
+    if isinstance(e, ast.Compare) and len(e.ops) == 1 and isinstance(e.ops[0], (ast.Is, ast.IsNot)) \
+            and isinstance(e.left, ast.Name) and isinstance(e.comparators[0], ast.Name) and e.left.id == e.comparators[0].id:
+        return isinstance(e.ops[0], ast.Is)         # x is x
     if isinstance(e, ast.Compare) and len(e.ops) == 1 and isinstance(e.left, ast.Constant) and isinstance(e.comparators[0], ast.Constant):
         a, b, op = e.left.value, e.comparators[0].value, e.ops[0]
         try:
@@ -385,6 +394,52 @@ def _const_truth(e):
             if all(v is False for v in vals):
                 return False
     return None
+
+
+def _negate(test):
+    """logical negation with the exact simplifications only: not not x -> x, not (a != b) -> a == b, not (a == b) -> a != b,
+    is / is not, in / not in (orderings are left under `not`: NaN)"""
+    if isinstance(test, ast.UnaryOp) and isinstance(test.op, ast.Not):
+        return test.operand
+    if isinstance(test, ast.Compare) and len(test.ops) == 1:
+        flip = {ast.NotEq: ast.Eq, ast.Eq: ast.NotEq, ast.Is: ast.IsNot, ast.IsNot: ast.Is, ast.In: ast.NotIn, ast.NotIn: ast.In}
+        for a_, b_ in flip.items():
+            if isinstance(test.ops[0], a_):
+                return ast.copy_location(ast.Compare(left=test.left, ops=[b_()], comparators=test.comparators), test)
+    return ast.copy_location(ast.UnaryOp(op=ast.Not(), operand=test), test)
+
+
+def _is_negative(test):
+    return (isinstance(test, ast.UnaryOp) and isinstance(test.op, ast.Not)) or \
+        (isinstance(test, ast.Compare) and len(test.ops) == 1 and isinstance(test.ops[0], (ast.NotEq, ast.IsNot, ast.NotIn)))
+
+
+def _canon_polarity(stmts):
+    """generated code only: `if c: pass else: S` -> `if not c: S`; negative tests with both branches are flipped to the
+    positive form (if a != b: X else: Y -> if a == b: Y else: X), same for conditional expressions"""
+    out = []
+    for st in stmts:
+        if isinstance(st, ast.If):
+            st.body = _canon_polarity(st.body)
+            st.orelse = _canon_polarity(st.orelse)
+            only_pass = all(isinstance(x, ast.Pass) for x in st.body)
+            if only_pass and st.orelse:
+                st.test, st.body, st.orelse = _negate(st.test), st.orelse, []
+            elif st.orelse and _is_negative(st.test) and not (len(st.orelse) == 1 and isinstance(st.orelse[0], ast.If)):
+                st.test, st.body, st.orelse = _negate(st.test), st.orelse, st.body
+            elif only_pass and not st.orelse:
+                pass
+        elif isinstance(st, (ast.For, ast.While, ast.With)):
+            st.body = _canon_polarity(st.body)
+        out.append(st)
+
+    class T(ast.NodeTransformer):
+        def visit_IfExp(self, node):
+            self.generic_visit(node)
+            if _is_negative(node.test):
+                return ast.copy_location(ast.IfExp(test=_negate(node.test), body=node.orelse, orelse=node.body), node)
+            return node
+    return [T().visit(x) for x in out]
 
 
 def _prune_constant_tests(stmts):
@@ -684,6 +739,22 @@ class Normaliser:
         key = (path, qual)
         if getattr(func, '_kv_norm', False) or key in self.inprogress:
             return
+        # fast exit: nothing in this function refers to a new helper and it defines no nested function
+        hs = self.helpers
+        touched = False
+        for n in ast.walk(func):
+            if isinstance(n, ast.Attribute) and n.attr in hs:
+                touched = True
+                break
+            if isinstance(n, ast.Name) and n.id in hs:
+                touched = True
+                break
+            if isinstance(n, ast.FunctionDef) and n is not func:
+                touched = True
+                break
+        if not touched:
+            func._kv_norm = True
+            return
         self.inprogress.add(key)
         a = func.args
         pos = a.posonlyargs + a.args
@@ -749,6 +820,14 @@ class Normaliser:
                 call._kv_noinline = True
                 continue
             stmts, ret = exp
+            # calls exposed by the substitution of arguments (a bound helper method passed as a parameter) are inlined too
+            depth_ = fctx.get('depth', 0)
+            if depth_ < 4:
+                fctx['depth'] = depth_ + 1
+                try:
+                    stmts = self._block(stmts, fctx)
+                finally:
+                    fctx['depth'] = depth_
             pre.extend(stmts)
             if isinstance(s, ast.Expr) and s.value is call:
                 return pre
@@ -894,7 +973,7 @@ class Normaliser:
                 if inner & (set(subst) | argnames):
                     return node
                 new = _Rename({}, subst).visit(copy.deepcopy(expr))
-                new = _prune_constant_tests([ast.Expr(value=new)])[0].value
+                new = _canon_polarity(_prune_constant_tests([ast.Expr(value=new)]))[0].value
                 if helper.path != fctx['path']:
                     for n in ast.walk(new):
                         if hasattr(n, 'end_lineno'):
@@ -974,7 +1053,7 @@ class Normaliser:
                 for n in ast.walk(s):
                     if hasattr(n, 'end_lineno'):
                         n.end_lineno = None
-        flat = _prune_constant_tests(flat)
+        flat = _canon_polarity(_prune_constant_tests(flat))
         self.log.append(f'N2 {fctx["path"]}::{fctx["qual"]}: call to new helper {helper.qual} inlined ({len(flat)} statement(s))')
         ret = ast.copy_location(ast.Name(id=retname, ctx=ast.Load()), call) if retname else None
         return temps + flat, ret
@@ -1089,6 +1168,8 @@ class Normaliser:
 
     # ---------------------------------------------------------------- N6 new keyword arguments -> positional
     def _keywords(self, path, qual, func, cls, known):
+        if not (keyword_uses(func) - known):
+            return
         a = func.args.posonlyargs + func.args.args
         sname = a[0].arg if (cls and a) else 'self'
         counts, ldefs = {}, {}
@@ -1133,6 +1214,8 @@ class Normaliser:
     def _forward(self, path, qual, func, known):
         if known is None:
             return      # a new function that was kept: nothing to compare its locals with
+        if not (local_names(func) - known):
+            return      # no new local: nothing to undo (the expensive passes below are skipped)
         cls = qual.split('.')[0] if '.' in qual else None
         a = func.args.posonlyargs + func.args.args
         counts, ldefs = {}, {}
@@ -1144,11 +1227,15 @@ class Normaliser:
                 ldefs[n.targets[0].id] = n.value
         self._cur = (cls, ldefs, a[0].arg if (cls and a) else 'self')
         params = {x.arg for x in a + func.args.kwonlyargs}
-        self._fold_new_locals(path, qual, func, known | params)
         before = len(self.log)
-        for _ in range(80):
-            if not (self._forward_once(path, qual, func, known) or self._coalesce_once(path, qual, func, known | params)
-                    or self._coalesce_copy_in(path, qual, func, known | params)):
+        for _round in range(6):
+            n0 = len(self.log)
+            self._fold_new_locals(path, qual, func, known | params)
+            for _ in range(80):
+                if not (self._forward_once(path, qual, func, known) or self._coalesce_once(path, qual, func, known | params)
+                        or self._coalesce_copy_in(path, qual, func, known | params) or self._alias_to_field(path, qual, func, known | params)):
+                    break
+            if len(self.log) == n0:
                 break
         if len(self.log) > before:
             self._fold_attr_strings(func)
@@ -1172,7 +1259,10 @@ class Normaliser:
                 first = None
                 for i in range(j):
                     b = blk[i]
-                    if isinstance(b, ast.Assign) and len(b.targets) == 1 and isinstance(b.targets[0], ast.Name) and b.targets[0].id == t:
+                    if isinstance(b, ast.Assign) and len(b.targets) == 1 and (
+                            (isinstance(b.targets[0], ast.Name) and b.targets[0].id == t)
+                            or (isinstance(b.targets[0], ast.Tuple) and any(isinstance(e_, ast.Name) and e_.id == t for e_ in b.targets[0].elts)
+                                and not any(isinstance(e_, ast.Name) and e_.id == x for e_ in b.targets[0].elts))):
                         first = i
                         break
                 if first is None:
@@ -1182,18 +1272,97 @@ class Normaliser:
                 for st in region:
                     for n in ast.walk(st):
                         inside.add(id(n))
+                tail = []
                 if any(id(n) not in inside for n in occ):
-                    continue
+                    # t may still be read after `x = t` as long as neither name is rebound from there on: both denote the same value
+                    after = {id(n) for st in blk[j + 1:] for n in ast.walk(st)}
+                    if any(id(n) not in inside and id(n) not in after for n in occ):
+                        continue
+                    rebound = False
+                    for st in blk[j + 1:]:
+                        for n in ast.walk(st):
+                            if isinstance(n, ast.Name) and n.id in (t, x) and isinstance(n.ctx, (ast.Store, ast.Del)):
+                                rebound = True
+                            if isinstance(n, (ast.Lambda, ast.FunctionDef)):
+                                rebound = True
+                    # x must not be rebound elsewhere later either (loops: the block may run again, then t is rebound first anyway)
+                    if rebound:
+                        continue
+                    tail = list(range(j + 1, len(blk)))
                 if any(isinstance(n, (ast.Lambda, ast.FunctionDef)) for st in region for n in ast.walk(st)):
                     continue
                 # x may be read by the first binding's right-hand side (t = f(x)), nowhere else before x = t
                 if any(isinstance(n, ast.Name) and n.id == x for st in blk[first + 1:j] for n in ast.walk(st)):
                     continue
                 tr = _Rename({t: x}, {})
-                for i in range(first, j):
+                for i in list(range(first, j)) + tail:
                     blk[i] = tr.visit(blk[i])
                 del blk[j]
                 self.log.append(f'N4 {path}::{qual}: new local {t} coalesced into {x}')
+                return True
+        return False
+
+    def _alias_to_field(self, path, qual, func, known) -> bool:
+        """t = E; self.f = t; ...t...   (t a new single-binding local)  ->  self.f = E; ...self.f...
+        valid while neither name is rebound: both denote the same object"""
+        for blk in self._blocks(func):
+            for i in range(len(blk) - 1):
+                a, b = blk[i], blk[i + 1]
+                if not (isinstance(a, ast.Assign) and len(a.targets) == 1 and isinstance(a.targets[0], ast.Name)
+                        and isinstance(b, ast.Assign) and len(b.targets) == 1 and isinstance(b.value, ast.Name)
+                        and b.value.id == a.targets[0].id and isinstance(b.targets[0], (ast.Attribute, ast.Subscript))
+                        and _is_path(b.targets[0]) and _path_indices_simple(b.targets[0]) and root_and_attrs(b.targets[0])[1]):
+                    continue
+                t, P = a.targets[0].id, b.targets[0]
+                if t in known:
+                    continue
+                stores = [n for n in ast.walk(func) if isinstance(n, ast.Name) and n.id == t and isinstance(n.ctx, (ast.Store, ast.Del))]
+                if len(stores) != 1 or any(isinstance(n, ast.arg) and n.arg == t for n in ast.walk(func)):
+                    continue
+                rest = blk[i + 2:]
+                inside = {id(n) for st in rest for n in ast.walk(st)} | {id(a.targets[0]), id(b.value)}
+                occ = [n for n in ast.walk(func) if isinstance(n, ast.Name) and n.id == t]
+                if any(id(n) not in inside for n in occ):
+                    continue
+                if any(isinstance(n, (ast.Lambda, ast.FunctionDef)) and any(isinstance(m, ast.Name) and m.id == t for m in ast.walk(n)) for st in rest for n in ast.walk(st)):
+                    continue
+                ra = root_and_attrs(P)
+                attrs = set(ra[1])
+                pnames = {n.id for n in ast.walk(P) if isinstance(n, ast.Name)}
+                has_index = any(isinstance(n, ast.Subscript) for n in ast.walk(P))
+                bad = False
+                cls_, ldefs_, sname_ = self._cur
+                for st in rest:
+                    for n in ast.walk(st):
+                        if isinstance(n, ast.Name) and isinstance(n.ctx, (ast.Store, ast.Del)) and n.id in pnames:
+                            bad = True
+                        if isinstance(n, ast.Attribute) and isinstance(n.ctx, (ast.Store, ast.Del)) and n.attr in attrs:
+                            bad = True
+                        if has_index and isinstance(n, ast.Subscript) and isinstance(n.ctx, (ast.Store, ast.Del)):
+                            r2 = root_and_attrs(n)
+                            if r2 and r2[1] and r2[1][-1] in attrs and len(r2[1]) <= len(ra[1]):
+                                bad = True      # another element of the same container (or the element itself) is rebound
+                        if isinstance(n, ast.Call) and not _is_pure_call(n):
+                            mw = self.effects.of_call(n, cls_, ldefs_, sname_, rebinds_only=not has_index)
+                            if '*' in mw or mw & attrs:
+                                bad = True
+                            if has_index and isinstance(n.func, ast.Attribute) and n.func.attr in ('append', 'insert', 'pop', 'remove', 'clear', 'sort', 'reverse', 'extend'):
+                                r2 = root_and_attrs(n.func.value)
+                                if r2 and set(r2[1]) & attrs:
+                                    bad = True
+                if bad:
+                    continue
+                load = copy.deepcopy(P)
+                for n in ast.walk(load):
+                    if hasattr(n, 'ctx'):
+                        n.ctx = ast.Load()
+                b.value = a.value
+                tr = _Rename({}, {t: load})
+                # stores through t (t[...] = .., t.a = ..) keep working: only Load occurrences of the name exist after its binding
+                for j in range(i + 2, len(blk)):
+                    blk[j] = tr.visit(blk[j])
+                del blk[i]
+                self.log.append(f'N4 {path}::{qual}: new local {t} stored into {ast.unparse(P)} right after its binding: later uses read the field')
                 return True
         return False
 
@@ -1301,6 +1470,109 @@ class Normaliser:
             return out
         func.body = fold(func.body)
 
+        def drop_self_assign(stmts):
+            out = []
+            for st in stmts:
+                for name in ('body', 'orelse', 'finalbody'):
+                    b = getattr(st, name, None)
+                    if isinstance(b, list) and b and isinstance(b[0], ast.stmt) and not isinstance(st, (ast.FunctionDef, ast.ClassDef)):
+                        setattr(st, name, drop_self_assign(b) or [ast.copy_location(ast.Pass(), st)])
+                if isinstance(st, ast.Assign) and len(st.targets) == 1 and isinstance(st.targets[0], ast.Name) and isinstance(st.value, ast.Name) \
+                        and st.targets[0].id == st.value.id:
+                    continue
+                out.append(st)
+            return out
+        func.body = drop_self_assign(func.body) or [ast.Pass(lineno=1, col_offset=0)]
+
+        def split(stmts):
+            out = []
+            for st in stmts:
+                for name in ('body', 'orelse', 'finalbody'):
+                    b = getattr(st, name, None)
+                    if isinstance(b, list) and b and isinstance(b[0], ast.stmt) and not isinstance(st, (ast.FunctionDef, ast.ClassDef)):
+                        setattr(st, name, split(b))
+                if isinstance(st, ast.Try):
+                    for h in st.handlers:
+                        h.body = split(h.body)
+                if isinstance(st, ast.Assign) and len(st.targets) == 1 and isinstance(st.targets[0], ast.Tuple) \
+                        and all(isinstance(e, ast.Name) and e.id not in known for e in st.targets[0].elts):
+                    sp_ = _split_tuple_assign(st)
+                    if sp_:
+                        out.extend(sp_)
+                        self.log.append(f'N4 {path}::{qual}: tuple assignment to new locals split')
+                        continue
+                out.append(st)
+            return out
+        func.body = split(func.body)
+
+        # L = []; for T in IT: L.append(E)   ->   L = [E for T in IT]      (L or T new; T not used after the loop; E does not read L)
+        def comp(stmts):
+            out = []
+            i = 0
+            while i < len(stmts):
+                st = stmts[i]
+                for name in ('body', 'orelse', 'finalbody'):
+                    b = getattr(st, name, None)
+                    if isinstance(b, list) and b and isinstance(b[0], ast.stmt) and not isinstance(st, (ast.FunctionDef, ast.ClassDef)):
+                        setattr(st, name, comp(b))
+                nxt = stmts[i + 1] if i + 1 < len(stmts) else None
+                if isinstance(st, ast.Assign) and len(st.targets) == 1 and isinstance(st.targets[0], ast.Name) and isinstance(st.value, ast.List) \
+                        and not st.value.elts and isinstance(nxt, ast.For) and not nxt.orelse and len(nxt.body) == 1:
+                    L = st.targets[0].id
+                    b0 = nxt.body[0]
+                    tnames = {n.id for n in ast.walk(nxt.target) if isinstance(n, ast.Name)}
+                    conds = []
+                    while isinstance(b0, ast.If) and not b0.orelse and len(b0.body) == 1:
+                        conds.append(b0.test)
+                        b0 = b0.body[0]
+                    if isinstance(b0, ast.Expr) and isinstance(b0.value, ast.Call) and isinstance(b0.value.func, ast.Attribute) \
+                            and b0.value.func.attr == 'append' and isinstance(b0.value.func.value, ast.Name) and b0.value.func.value.id == L \
+                            and len(b0.value.args) == 1 and not b0.value.keywords and (L not in known or (tnames and not (tnames & known))):
+                        E = b0.value.args[0]
+                        reads = {n.id for n in ast.walk(E) if isinstance(n, ast.Name)} | {n.id for n in ast.walk(nxt.iter) if isinstance(n, ast.Name)} \
+                            | {n.id for c_ in conds for n in ast.walk(c_) if isinstance(n, ast.Name)}
+                        later = {n.id for s2 in stmts[i + 2:] for n in ast.walk(s2) if isinstance(n, ast.Name)}
+                        if L not in reads and not (tnames & later) and not any(isinstance(n, (ast.Yield, ast.YieldFrom, ast.Await)) for n in ast.walk(E)):
+                            lc = ast.ListComp(elt=E, generators=[ast.comprehension(target=nxt.target, iter=nxt.iter, ifs=conds, is_async=0)])
+                            out.append(ast.copy_location(ast.Assign(targets=[st.targets[0]], value=ast.copy_location(lc, nxt), lineno=st.lineno), st))
+                            self.log.append(f'N4 {path}::{qual}: append loop building {L} rewritten as a list comprehension')
+                            i += 2
+                            continue
+                out.append(st)
+                i += 1
+            return out
+        func.body = comp(func.body)
+
+        # for T in (c1, c2, ..): BODY   ->   BODY[T:=c1]; BODY[T:=c2]; ..    (literal tuple/list of constants, T a new local that
+        # the body does not rebind and nothing reads after the loop, no break/continue/else)
+        def unroll(stmts):
+            out = []
+            for i, st in enumerate(stmts):
+                for name in ('body', 'orelse', 'finalbody'):
+                    b = getattr(st, name, None)
+                    if isinstance(b, list) and b and isinstance(b[0], ast.stmt) and not isinstance(st, (ast.FunctionDef, ast.ClassDef)):
+                        setattr(st, name, unroll(b))
+                if isinstance(st, ast.For) and not st.orelse and isinstance(st.target, ast.Name) and st.target.id not in known \
+                        and isinstance(st.iter, (ast.Tuple, ast.List)) and 0 < len(st.iter.elts) <= 16 \
+                        and all(isinstance(e, ast.Constant) for e in st.iter.elts):
+                    T_ = st.target.id
+                    body_nodes = [n for b_ in st.body for n in ast.walk(b_)]
+                    later = {n.id for s2 in stmts[i + 1:] for n in ast.walk(s2) if isinstance(n, ast.Name)}
+                    if not any(isinstance(n, (ast.Break, ast.Continue, ast.Lambda, ast.FunctionDef)) for n in body_nodes) \
+                            and not any(isinstance(n, ast.Name) and n.id == T_ and isinstance(n.ctx, (ast.Store, ast.Del)) for n in body_nodes) \
+                            and T_ not in later:
+                        for e in st.iter.elts:
+                            for b_ in st.body:
+                                out.append(_Rename({}, {T_: e}).visit(copy.deepcopy(b_)))
+                        self.log.append(f'N4 {path}::{qual}: loop over a literal table of {len(st.iter.elts)} constants unrolled')
+                        continue
+                out.append(st)
+            return out
+        n_before = len(self.log)
+        func.body = unroll(func.body)
+        if len(self.log) > n_before:
+            self._fold_attr_strings(func)
+
     def _forward_once(self, path, qual, func, known):
         params = {x.arg for x in func.args.posonlyargs + func.args.args + func.args.kwonlyargs}
         bind_count: dict[str, int] = {}
@@ -1370,6 +1642,8 @@ class Normaliser:
                 if isinstance(n, (ast.Lambda, ast.FunctionDef)) and any(isinstance(m, ast.Name) and m.id == v for m in ast.walk(n)):
                     return False
         last = max(where.values())
+        if isinstance(R, ast.IfExp) and len(uses) > 1:
+            return False        # duplicating a conditional expression into several uses helps no rule
         pure = is_pure(R)
         if not pure:
             if len(uses) != 1 or last != 0:
@@ -1449,7 +1723,7 @@ class Normaliser:
         for j in range(last + 1):
             st = tr.visit(later[j])
             # a, b = (x, y) produced by the substitution -> a = x; b = y  (when no target is read by a later element)
-            sp_ = _split_tuple_assign(st) if isinstance(R, ast.Tuple) else None
+            sp_ = _split_tuple_assign(st, names_may_be_impure=True) if isinstance(R, ast.Tuple) else None
             if sp_:
                 new_later.extend(sp_)
                 continue
@@ -1491,7 +1765,14 @@ class Normaliser:
             own = [t for t in st.targets if isinstance(t, ast.Name)]
         elif final and isinstance(st, ast.AugAssign) and isinstance(st.target, ast.Name):
             own = [st.target]
-        for n in ast.walk(st):
+        scope = [st]
+        if final and isinstance(st, (ast.If, ast.For)):
+            # the header (test / iterable) is evaluated once, before the body: if v is used only there, only the header counts
+            hdr = st.test if isinstance(st, ast.If) else st.iter
+            in_hdr = {id(n) for n in ast.walk(hdr)}
+            if all(id(n) in in_hdr for n in ast.walk(st) if isinstance(n, ast.Name) and n.id == v):
+                scope = [hdr]
+        for n in (x for sc in scope for x in ast.walk(sc)):
             if isinstance(n, ast.Name) and isinstance(n.ctx, (ast.Store, ast.Del)) and n.id in deps:
                 if any(n is t for t in own):
                     continue        # the statement's own binding happens after its value (where v is used) is evaluated
